@@ -341,6 +341,30 @@ pub fn run(cfg: &Cfg, rep: &mut Rep) {
             check_doy(rep, y, 60.0, SCALES[((y + 2) % 9) as usize]);
         }
     }
+    // every whole day number of the year and its neighbours in the last place (the instants a few nanoseconds either side of
+    // midnight, which is as close as a double gets): where a split into whole days and time of day disagrees with itself
+    if !cfg.fuzz {
+        for k in 1..=366u32 {
+            for (j, y) in [1i32, 1972, 2024, 1899, 9996].into_iter().enumerate() {
+                i += 1;
+                if i % n != sh {
+                    continue;
+                }
+                let ylen = if cal::is_leap(y as i64) { 366 } else { 365 };
+                if k > ylen {
+                    continue;
+                }
+                let kf = k as f64;
+                let s = SCALES[(k as usize + j) % 9];
+                rep.class("doy/whole-day-and-its-neighbours");
+                for x in [kf, f64::from_bits(kf.to_bits() - 1), f64::from_bits(kf.to_bits() + 1), kf - 1e-13, kf + 1e-13, kf + 1.0 - 1e-9, kf + 0.5] {
+                    if x >= 1.0 && x < ylen as f64 + 1.0 {
+                        check_doy(rep, y, x, s);
+                    }
+                }
+            }
+        }
+    }
     let mut r = Rng::new(cfg.seed, 0x2000 + sh as u64);
     let nrand = cfg.budget(4_000_000);
     for _ in 0..nrand {
